@@ -427,7 +427,8 @@ impl Scenario for C37Scn {
                     want_alt.insert(noc_rule(DESTS[*dest as usize]));
                 }
             }
-            if (live != want && live != want_alt) || b.live_rules.len() != live.len() {
+            // every "maybe" is independent: the bus must hold everything needed and nothing beyond the maybes
+            if !(want.is_subset(&live) && live.is_subset(&want_alt)) || b.live_rules.len() != live.len() {
                 let missing: Vec<&String> = want.difference(&live).collect();
                 let extra: Vec<&String> = live.difference(&want).collect();
                 let disc = if !missing.is_empty() { "rule-missing-on-bus" } else { "rule-leaked-on-bus" };
